@@ -153,7 +153,8 @@ Lemma hstep_frame cn c l c' :
   counted (pc c') = counted (pc c) /\ in_set (pc c') = in_set (pc c) /\ acc_closing c' = acc_closing c /\
   (sock_closed c = true -> sock_closed c' = true) /\ (served c = true -> served c' = true).
 Proof.
-  intros H. unfold hstep in H. break_match H; inversion H; subst; cbn; repeat split; auto.
+  intros H. unfold hstep in H. break_match H; inversion H; subst; cbn;
+    repeat match goal with E : pc _ = _ |- _ => rewrite E; clear E end; cbn; repeat split; auto.
 Qed.
 
 Definition cl_started (g : gst) : bool := match cl g with ClIdle | ClCalled => false | _ => true end.
@@ -169,6 +170,7 @@ Proof.
   { intros todo E. apply Hcl. unfold cl_started. rewrite E. reflexivity. }
   unfold hstep in H. break_match H; inversion H; subst; clear H; unfold conn_ok; cbn in *;
     repeat split; intros;
+    repeat match goal with E : pc _ = _ |- _ => rewrite E in *; clear E end; cbn in *;
     try discriminate; try congruence; auto;
     try (destruct (served c); [auto; fail|]; exfalso;
          match goal with Hu : false = false -> _ |- _ => specialize (Hu eq_refl); discriminate end);
@@ -371,8 +373,14 @@ Proof.
     + unfold late_ok in *; cbn. rewrite (n_late_upd _ _ _ (set_pc c CReg) Hg) by reflexivity. exact Hlate.
   - (* Addr *) destruct (getc g i) as [c|] eqn:Hg; [|discriminate].
     destruct (hstep (closing g) c (Addr i)) as [c'|] eqn:Hh; [|discriminate]. inv_some Hs. eapply inv_setc; eauto.
+  - (* TlsConn *) destruct (getc g i) as [c|] eqn:Hg; [|discriminate].
+    destruct (hstep (closing g) c (TlsConn i)) as [c'|] eqn:Hh; [|discriminate]. inv_some Hs. eapply inv_setc; eauto.
   - (* TChkConn *) destruct (getc g i) as [c|] eqn:Hg; [|discriminate].
     destruct (hstep (closing g) c (TChkConn i)) as [c'|] eqn:Hh; [|discriminate]. inv_some Hs. eapply inv_setc; eauto.
+  - (* HsDone *) destruct (getc g i) as [c|] eqn:Hg; [|discriminate].
+    destruct (hstep (closing g) c (HsDone i)) as [c'|] eqn:Hh; [|discriminate]. inv_some Hs. eapply inv_setc; eauto.
+  - (* THsFail *) destruct (getc g i) as [c|] eqn:Hg; [|discriminate].
+    destruct (hstep (closing g) c (THsFail i)) as [c'|] eqn:Hh; [|discriminate]. inv_some Hs. eapply inv_setc; eauto.
   - (* FirstByte *) destruct (getc g i) as [c|] eqn:Hg; [|discriminate].
     destruct (hstep (closing g) c (FirstByte i)) as [c'|] eqn:Hh; [|discriminate]. inv_some Hs. eapply inv_setc; eauto.
   - (* ReqRead *) destruct (getc g i) as [c|] eqn:Hg; [|discriminate].
@@ -396,6 +404,8 @@ Proof.
   - (* SockCloseC *) destruct (getc g i) as [c|] eqn:Hg; [|discriminate].
     destruct (cl g) as [| |todo| |] eqn:Ecl; try discriminate.
     destruct (mem_nat i todo) eqn:Em; [|discriminate]. inv_some Hs. eapply inv_close_item; eauto.
+  - (* TSilentClose *) destruct (getc g i) as [c|] eqn:Hg; [|discriminate].
+    destruct (hstep (closing g) c (TSilentClose i)) as [c'|] eqn:Hh; [|discriminate]. inv_some Hs. eapply inv_setc; eauto.
   - (* TDec *) destruct (getc g i) as [c|] eqn:Hg; [|discriminate]. destruct (pc c) eqn:Epc; try discriminate. inv_some Hs.
     constructor; cbn.
     + rewrite (count_pc_upd counted _ _ _ (set_pc c CDec) Hg), Epc. cbn. lia.
@@ -630,25 +640,33 @@ Qed.
 Lemma wrote_then g g' i b e :
   stepf g (Wrote i b e) = Some g' ->
   exists c c', getc g i = Some c /\ getc g' i = Some c' /\
-    pc c = CWriting2 b /\
+    (pc c = CWriting2 b \/ (pc c = CWriting b /\ e = true)) /\
     pc c' = (if is_connect c || b || e then CExit else CWait) /\
     (e = true -> sock_closed c = true \/ client_gone c = true).
 Proof.
   cbn. destruct (getc g i) as [c|] eqn:Hg; [|discriminate]. unfold hstep.
   destruct (pc c) eqn:Ep; try discriminate.
-  destruct (is_connect c) eqn:Ei.
-  - destruct ((negb b && negb b0 && negb e) || (Bool.eqb b b0 && e && (sock_closed c || client_gone c))) eqn:E; [|discriminate].
-    cbn. intros H. inv_some H. exists c, (set_pc c CExit).
-    split; [reflexivity|]. split; [eapply getc_setc_same; eauto|].
-    assert (b = b0).
-    { destruct b, b0, e; cbn in E; try discriminate; reflexivity. }
-    subst b0. split; [assumption|]. split; [rewrite Ei; reflexivity|].
-    intros ->. destruct b; cbn in E; apply orb_true_iff in E; tauto.
-  - destruct (Bool.eqb b b0 && (negb e || sock_closed c || client_gone c)) eqn:E; [|discriminate].
-    cbn. intros H. inv_some H. apply andb_true_iff in E as [E1 E2]. apply Bool.eqb_prop in E1. subst b0.
-    exists c, (set_pc c (if b || e then CExit else CWait)).
-    split; [reflexivity|]. split; [eapply getc_setc_same; eauto|]. split; [assumption|]. split; [rewrite Ei; reflexivity|].
-    intros ->. cbn in E2. apply orb_true_iff in E2. tauto.
+  - (* CWriting: the write failed at once *)
+    destruct (e && Bool.eqb b b0 && (sock_closed c || client_gone c)) eqn:E; [|discriminate].
+    cbn. intros H. inv_some H. apply andb_true_iff in E as [E1 E2]. apply andb_true_iff in E1 as [E0 E1].
+    apply Bool.eqb_prop in E1. subst b0. subst e.
+    exists c, (set_pc c CExit). split; [reflexivity|]. split; [eapply getc_setc_same; eauto|].
+    split; [right; split; [assumption|reflexivity]|]. split.
+    + cbn. rewrite !orb_true_r. reflexivity.
+    + intros _. apply orb_true_iff in E2. tauto.
+  - destruct (is_connect c) eqn:Ei.
+    + destruct ((negb b && negb b0 && negb e) || (Bool.eqb b b0 && e && (sock_closed c || client_gone c))) eqn:E; [|discriminate].
+      cbn. intros H. inv_some H. exists c, (set_pc c CExit).
+      split; [reflexivity|]. split; [eapply getc_setc_same; eauto|].
+      assert (b = b0).
+      { destruct b, b0, e; cbn in E; try discriminate; reflexivity. }
+      subst b0. split; [left; assumption|]. split; [rewrite Ei; reflexivity|].
+      intros ->. destruct b; cbn in E; apply orb_true_iff in E; tauto.
+    + destruct (Bool.eqb b b0 && (negb e || sock_closed c || client_gone c)) eqn:E; [|discriminate].
+      cbn. intros H. inv_some H. apply andb_true_iff in E as [E1 E2]. apply Bool.eqb_prop in E1. subst b0.
+      exists c, (set_pc c (if b || e then CExit else CWait)).
+      split; [reflexivity|]. split; [eapply getc_setc_same; eauto|]. split; [left; assumption|]. split; [rewrite Ei; reflexivity|].
+      intros ->. cbn in E2. apply orb_true_iff in E2. tauto.
 Qed.
 
 (* an exchange that has reached the origin side is never abandoned: the only ways out of the
